@@ -222,6 +222,21 @@ func conTypes() []*conType {
 			}
 			return q
 		}})
+		// 8200 elements, the only 1 at index 4096 and the only 2 at index 8192 (whatever is done in portions
+		// of a few thousand elements); C02 runs the two-call programs on it
+		t.inits = append(t.inits, initSpec{"huge-8200-with-1-at-4096-and-2-at-8192", func() any {
+			q := queue.New[int]()
+			for i := 0; i < 8200; i++ {
+				v := 3
+				if i == 4096 {
+					v = 1
+				} else if i == 8192 {
+					v = 2
+				}
+				q.Enqueue(v)
+			}
+			return q
+		}})
 		// a large queue whose backing array is exactly full (what an implementation does when it has to
 		// grow a big array -- copy outside the lock, switch to another representation -- happens here)
 		t.inits = append(t.inits, initSpec{"large-with-full-backing-array", func() any {
@@ -363,6 +378,16 @@ func conTypes() []*conType {
 				return h
 			}})
 		}
+		// 1100 elements with the only 2 at the root (on the path of every insertion): what is done
+		// differently for large heaps; C02 runs the two-call programs on it
+		t.inits = append(t.inits, initSpec{"huge-1100-with-2-at-the-root", func() any {
+			h := heap.NewHeap(lessInt)
+			h.Push(2)
+			for i := 0; i < 1099; i++ {
+				h.Push(3)
+			}
+			return h
+		}})
 		t.final = func(i any) string {
 			h := i.(H)
 			out := fmt.Sprintf("size=%d:", h.Size())
